@@ -926,6 +926,8 @@ class Interp:
     def format(self, val, spec):
         if isinstance(val, AStr):
             return list(val.pieces)
+        if (val is None or isinstance(val, bool)) and not spec:
+            return [('lit', str(val))]
         if isinstance(val, AInt):
             s = spec.strip()
             if s.upper().endswith('X'):
